@@ -1,5 +1,5 @@
-(* C08 - the wire shape of `struct Rules` (lib/src/compiler/rules.rs) in the
-   universe of Universe.v.  The field list and its order come from the source
+(* C08 - the REVIEWED wire shape of `struct Rules` (lib/src/compiler/rules.rs) in the
+   universe of Universe.v, hand-written; see the end of the file for its role.  The field list and its order come from the source
    (Gen/CodecGen.rules_fields, #[serde(skip)] fields removed); the shape of each
    field is written by hand from the type definitions and validated on every run
    by decoding real blobs with [decode rules_ty] (CodecCheck.CBlob): the decoder
@@ -12,7 +12,7 @@
    (UniverseProofs.seq_u8_is_bytes), which is used here because it is cheaper
    to evaluate. *)
 From Coq Require Import List NArith String.
-From YV Require Import Gen.CodecGen Codec.Reader Codec.Varint Codec.Universe.
+From YV Require Import Gen.CodecGen Codec.Reader Codec.Varint Codec.Universe Gen.RulesTyGen.
 Import ListNotations.
 Local Open Scope string_scope.
 
@@ -108,7 +108,16 @@ Definition field_ty (name : string) : ty :=
   else if String.eqb name "rules_profiling_enabled" then TBool
   else unknown_field_ty.
 
-Definition rules_ty : ty := shape_of field_ty rules_fields.
+Definition reviewed_rules_ty : ty := shape_of field_ty rules_fields.
+
+(* The shape used by the theorems and by the correspondence is the one DERIVED from the Rust
+   definitions (Gen/RulesTyGen.v); the hand-written shape above is kept as the reviewed pin:
+   RulesShapeProofs.generated_shape_is_reviewed states that both agree, so a change of any
+   definition reachable from Rules has to be looked at before the pin is renewed. *)
+Definition rules_ty : ty := gen_rules_ty.
+(* the globals blob (Rules::serialized_globals, a types::Struct encoded separately with the
+   same bincode configuration); recursive, therefore only generated *)
+Definition globals_ty : ty := gen_globals_ty.
 
 (* the serde attributes the shapes above were written for *)
 Definition rules_expected_kind (name : string) : field_kind :=
